@@ -1,7 +1,10 @@
 package vstub
 
 import (
+	"context"
+
 	"github.com/google/uuid"
+	e2wtypes "github.com/wealdtech/go-eth2-wallet-types/v2"
 	e2types "github.com/wealdtech/go-eth2-types/v2"
 )
 
@@ -24,3 +27,22 @@ type Account struct {
 func (a *Account) ID() uuid.UUID                { return uuid.UUID{} }
 func (a *Account) Name() string                 { return a.Nm }
 func (a *Account) PublicKey() e2types.PublicKey { return &a.Key }
+
+// Wallet is a wallet whose Accounts() delivers a fixed list.
+type Wallet struct {
+	Nm   string
+	Accs []e2wtypes.Account
+}
+
+func (w *Wallet) ID() uuid.UUID   { return uuid.UUID{} }
+func (w *Wallet) Type() string    { return "stub" }
+func (w *Wallet) Name() string    { return w.Nm }
+func (w *Wallet) Version() uint   { return 1 }
+func (w *Wallet) Accounts(_ context.Context) <-chan e2wtypes.Account {
+	ch := make(chan e2wtypes.Account, len(w.Accs))
+	for _, a := range w.Accs {
+		ch <- a
+	}
+	close(ch)
+	return ch
+}
